@@ -306,9 +306,65 @@ def _reshape(v, shape):
     return [v[i * c:(i + 1) * c] for i in range(r)]
 
 
+def gen_poly_case(rng):
+    """polynomial fragment on dyadic data: ExecComp's complex step (with the power-of-two step 2^-133) is then
+    EXACT, so its partials must equal evalQ (D e) exactly"""
+    for _ in range(400):
+        nv = rng.randint(1, 3)
+        tree = G.gen_poly(rng, rng.randint(1, 3), nv)
+        used = sorted(G.vars_used(tree))
+        if not used:
+            continue
+        n = rng.choice([1, 3, 4])
+        shape = [] if n == 1 else [n]
+        arr = {i: (n > 1 and rng.random() < 0.75) for i in used}
+        if n > 1 and not any(arr.values()):
+            arr[used[0]] = True
+        flat = {str(i): [rng.choice([k for k in range(-12, 13) if k]) / 4.0 for _ in range(n if arr[i] else 1)]
+                for i in used}
+        try:
+            for k in range(n):
+                env = [Fraction(flat[str(j)][k if len(flat[str(j)]) > 1 else 0]) if j in used else Fraction(0)
+                       for j in range(3)]
+                for w in used:
+                    G.evq(tree, env, w)
+        except (G.Reject, ZeroDivisionError):
+            continue
+        return {'tree': tree, 'vars': used, 'shape': shape, 'points': [{'inputs': dict(flat), 'flat': flat}],
+                'config': rng.choice(['default', 'nocolor', 'diag']), 'sum': False, 'n': n, 'yscalar': False,
+                'inscalar': [], 'tie': False, 'poly': True}
+    raise RuntimeError('polynomial generator failed')
+
+
+def poly_terms(cases, results):
+    """exact tie: evalQ (D v e) at the dyadic point (vm_compute) vs the partial ExecComp returned"""
+    idx, got, want = [], [], []
+    for i, (c, r) in enumerate(zip(cases, results)):
+        if not c.get('poly') or r.get('res') in (None, '__none__') or not r.get('ok', True):
+            continue
+        e = G.coq(c['tree'])
+        flat = c['points'][0]['flat']
+        res = r['res'][0]
+        g, w = [], []
+        for k in range(c['n']):
+            env = '(envQ_of_list [%s])' % '; '.join(
+                ('((%d) # %d)' % (Fraction(flat[str(j)][k if len(flat[str(j)]) > 1 else 0]).numerator,
+                                  Fraction(flat[str(j)][k if len(flat[str(j)]) > 1 else 0]).denominator))
+                if j in c['vars'] else '(0 # 1)' for j in range(3))
+            for v_ in c['vars']:
+                isarr = len(flat[str(v_)]) > 1
+                g.append('(vopt VQ (evalQ %s (D %d %s)))' % (env, v_, e))
+                w.append(res['J'][str(v_)][k][k if isarr else 0])
+        got.append('(VL [%s])' % '; '.join(g))
+        want.append(core.to_val(w))
+        idx.append(i)
+    return idx, got, want
+
+
 def gen(tier, rng, allowed):
     n_tie, n_oracle = (90, 700) if tier == 'quick' else (600, 8000)
-    cases = []
+    n_poly = 150 if tier == 'quick' else 2000
+    cases = [gen_poly_case(rng) for _ in range(n_poly)]
     for i in range(n_tie + n_oracle):
         c = gen_case(rng, tier, allowed)
         c['tie'] = i < n_tie
@@ -485,6 +541,17 @@ def main(tier):
             text, n = lemma_for(i, c, res)
             items.append((i, text, n))
             total += n
+        pidx, pgot, pwant = poly_terms(cases, results)
+        pbad, perr, pcmd = core.coq_mismatches(wd, ['Expr.Expr'], pgot, pwant, shard=200, tag='poly')
+        v.add_correspondence('evalQ (D e) vs ExecComp partials on the polynomial fragment (dyadic data, step 2^-133)',
+                             len(pidx), len(pbad), 'E3 exact', pcmd)
+        if perr:
+            v.broke('correspondence:model-evaluation-failed (polynomial fragment)')
+            v.cov['broken_detail'] = json.dumps(perr[:2])[-3000:]
+        if pbad:
+            v.broke('correspondence:model-vs-implementation exact on the polynomial fragment (%d of %d differ)'
+                    % (len(pbad), len(pidx)))
+            v.cov['broken_detail'] = json.dumps({'cases': [cases[pidx[b]] for b in pbad[:3]]})[-5000:]
         ok, badg, errs, nfiles = run_goal_files(wd, items, per_file=max(50, total // core.NCPU + 1))
         badc |= {int(t.split()[0]) for t in badg}
         missing = total - len(ok) - len(badg)
